@@ -247,6 +247,7 @@ def configure(eng):
         return prev_m(e, o, m, args, kwargs, st, node) if prev_m else None
     eng.hooks['method'] = method
     eng.module_names |= {'uuid', 'asyncio', 'traceback', 'logging'}
+    eng.class_typed_attrs = {'sym', 'params', 'key', 'value'}       # command objects: readable only on the command classes that define them
     eng.stable_opaque_attrs |= {'set_result', 'set_exception', '_context', '__traceback__'}
     eng.reg.externals['traceback.print_exception'] = lambda e, st, a, k, n: [(st, NONE)]
     eng.reg.externals['logging.error'] = lambda e, st, a, k, n: [(st, NONE)]
